@@ -7,7 +7,7 @@ H_OPS = {
     "add_edges_from": 8, "add_weighted_edges_from": 2, "add_node_to_edge": 5, "remove_edge": 3,
     "remove_edges_from": 2, "remove_node_from_edge": 4, "set_node_attributes": 2,
     "set_edge_attributes": 2, "set_net_attr": 1, "update": 2, "clear": 0.3, "clear_edges": 0.4,
-    "double_edge_swap": 3, "random_edge_shuffle": 2, "merge_duplicate_edges": 2, "dup_edge": 3,
+    "double_edge_swap": 3, "random_edge_shuffle": 2, "merge_duplicate_edges": 2, "dup_edge": 3, "near_dup_edge": 2,
     "cleanup": 1, "convert_labels_to_integers": 0.7, "largest_connected_hypergraph": 0.7,
 }
 DH_OPS = {
@@ -26,7 +26,7 @@ SC_OPS = {
     "largest_connected_hypergraph": 0.5,
 }
 ALL_FAULTS = ["oneshot", "none_member", "unhashable_member", "dying", "empty_in_bulk", "none_node",
-              "unhashable_node"]
+              "unhashable_node", "attr_pairs", "attr_junk"]
 
 
 def swarm(r, table, p_drop=0.25):
